@@ -34,6 +34,8 @@ class Recip(R):
     def __rtruediv__(self, o):
         if isinstance(o, np.ndarray):
             return NotImplemented
+        if isinstance(o, (int, float)) and o == 1:
+            return self.base
         return lift(o) * self.base
 
     def __pow__(self, k):
